@@ -91,13 +91,16 @@ def expLoopE (succE : S → Res (List (α × S))) (isFin : S → Bool) :
         | .error e => .error e
         | .ok st' => expLoopE succE isFin fuel st'
 
+/-- Lines 1039–1041 and 974/975: the state before the first pop. -/
+def expInit (isFin : S → Bool) (init : S) : ExpSt S α :=
+  { trans := [(init, [])], states := [init],
+    finals := if isFin init then [init] else [], queue := [init] }
+
 /-- `_expand_dfa(final_state_fn, initial_state, expand_state_fn, input_symbols,
 retain_names=True, minify=False)` (the constructor call of line 1075 excluded). -/
 def expandE (succE : S → Res (List (α × S))) (isFin : S → Bool) (syms : List α) (fuel : Nat)
     (init : S) : Res (DFA S α) :=
-  match expLoopE succE isFin fuel
-      { trans := [(init, [])], states := [init],
-        finals := if isFin init then [init] else [], queue := [init] } with
+  match expLoopE succE isFin fuel (expInit isFin init) with
   | .error e => .error e
   | .ok st =>
     .ok { states := st.states, syms := syms, trans := st.trans, init := init, finals := st.finals,
